@@ -553,3 +553,36 @@ theorem feedAck_nohang (o : Online) (ack : Nat) : NoHang (o.feedAck ack) := by
   unfold NoHang Online.feedAck; split <;> simp
 
 end Tw.Conn
+
+/-! ## the acceptance rule -/
+namespace Tw.Conn
+
+theorem seqNext_val (a : Nat) : seqNext a = (a + 1) % 1024 := rfl
+
+theorem seqCompare_current_iff (a b : Nat) : seqCompare a b = .current ↔ a = b := by
+  unfold seqCompare
+  simp only
+  constructor
+  · intro h
+    by_cases h1 : a < b
+    · simp [h1] at h; split at h <;> cases h
+    · by_cases h2 : b < a
+      · simp [h1, h2] at h; split at h <;> cases h
+      · omega
+  · intro h; subst h; simp
+
+/-- `Sequence::update` accepts exactly the successor -/
+theorem seqUpdate_accept_fst (a s : Nat) : (seqUpdate a s).1 = if seqNext a = s then s else a := by
+  unfold seqUpdate
+  simp only
+  by_cases h : seqNext a = s
+  · simp [h, (seqCompare_current_iff _ _).mpr]
+  · have : seqCompare (seqNext a) s ≠ .current := fun hc => h ((seqCompare_current_iff _ _).mp hc)
+    simp [h, this]
+
+theorem seqUpdate_accept_snd (a s : Nat) : (seqUpdate a s).2 = .current ↔ seqNext a = s := by
+  unfold seqUpdate
+  simp only
+  exact seqCompare_current_iff _ _
+
+end Tw.Conn
